@@ -9,6 +9,10 @@
 From Coq Require Import List Arith NArith ZArith Bool Lia ZifyBool ZifyN ZifyNat String.
 Import ListNotations.
 Require Import PyStr Regex Regexes Funcs Sections DataRead FuncsPinsLib RegexSubFacts StripFacts.
+Lemma str_eqb_sym : forall a b : list N, str_eqb a b = str_eqb b a.
+Proof.
+  induction a as [|x a IH]; destruct b as [|y b]; cbn [str_eqb]; try reflexivity. rewrite (N.eqb_sym x y), IH. reflexivity.
+Qed.
 Open Scope list_scope.
 Open Scope N_scope.
 
@@ -224,3 +228,23 @@ Theorem read_policy_tables :
   policy_subs (s2l "default") = Some (List.map sub_pair default_subs) /\
   policy_subs (s2l "comma-delimiter") = Some (List.map sub_pair comma_delim_subs).
 Proof. split; reflexivity. Qed.
+
+(* ---------- define_line_splitter: the splitter handed to the sniffer and to the normal engine -------------
+   DataRead.split_line d IS what reader.define_line_splitter returns for "SPACE" / "COMMA" / "TAB" (any other
+   delimiter: KeyError), each match presented as "".join(<its groups>) *)
+Definition dlm_of_name (s : list N) : option dlm :=
+  if str_eqb s (s2l "SPACE") then Some DSpace
+  else if str_eqb s (s2l "COMMA") then Some DComma
+  else if str_eqb s (s2l "TAB") then Some DTab
+  else None.
+Theorem line_splitter_pin : forall delim line,
+  py_define_line_splitter delim line = option_map (fun d => split_line d line) (dlm_of_name delim).
+Proof.
+  intros delim line. unfold py_define_line_splitter, dlm_of_name. cbv zeta.
+  change (s2l "SPACE") with [83; 80; 65; 67; 69]. change (s2l "COMMA") with [67; 79; 77; 77; 65]. change (s2l "TAB") with [84; 65; 66].
+  cbn [pyo_dict_set str_eqb N.eqb Pos.eqb andb]. cbn [pyo_dict_item].
+  rewrite (str_eqb_sym [83; 80; 65; 67; 69] delim), (str_eqb_sym [67; 79; 77; 77; 65] delim), (str_eqb_sym [84; 65; 66] delim).
+  destruct (str_eqb delim [83; 80; 65; 67; 69]); [reflexivity|].
+  destruct (str_eqb delim [67; 79; 77; 77; 65]); [reflexivity|].
+  destruct (str_eqb delim [84; 65; 66]); reflexivity.
+Qed.
